@@ -53,7 +53,13 @@ def gen_case(rng, thorough=False):
 
 def run_potable(case):
     from atsim.potentials.config import Configuration
-    tab = Configuration().read(io.StringIO(ec.potable_eam_text(case)))
+    if case.get('exclude') is not None:
+        # seen through --exclude-species with labels the model does not use: nothing is deleted, the [Species] data of every species stays
+        from atsim.potentials.config import ConfigParser
+        from atsim.potentials.config._filtered_config_parser import FilteredConfigParser
+        tab = Configuration().read_from_parser(FilteredConfigParser(ConfigParser(io.StringIO(ec.potable_eam_text(case))), exclude=list(case['exclude'])))
+    else:
+        tab = Configuration().read(io.StringIO(ec.potable_eam_text(case)))
     out = io.StringIO(); tab.write(out)
     return tab, out.getvalue()
 
@@ -65,6 +71,8 @@ def potable_corpus():
                  species={'Ni.atomic_mass': '0.0', 'Al.atomic_number': '0', 'Al.lattice_constant': '4.05'}),
             dict(base, target='setfl', embed=[('NI', ec.EMBED[0]), ('Al', ec.EMBED[1])], dens=[('Al', ec.DENS[0]), ('NI', ec.DENS[1])], ppairs=[(('NI', 'Al'), ec.PAIRD[1])],
                  species={'NI.atomic_number': '28', 'NI.atomic_mass': '57.9353', 'NI.lattice_constant': '3.52', 'NI.lattice_type': 'bcc'}),
+            dict(base, target='setfl', exclude=['C', 'N', 'i'], embed=[('Cu', ec.EMBED[0]), ('Ni', ec.EMBED[1])], dens=[('Ni', ec.DENS[0]), ('Cu', ec.DENS[1])], ppairs=[(('Ni', 'Cu'), ec.PAIRD[0])],
+                 species={'Cu.atomic_mass': '62.9296', 'Cu.lattice_constant': '3.615', 'Cu.lattice_type': 'bcc', 'Ni.lattice_constant': '3.52'}),
             dict(base, target='lammps_eam_alloy', embed=[('al', ec.EMBED[2]), ('Cu', ec.EMBED[0])], dens=[('Cu', ec.DENS[2]), ('al', ec.DENS[0])], ppairs=[(('al', 'al'), ec.PAIRD[2])],
                  species={'al.atomic_number': '13', 'al.atomic_mass': '1.5', 'Cu.lattice_constant': '3.61', 'Cu.atomic_mass': '65.0'})]
 
